@@ -596,6 +596,12 @@ class SymInt:
     def __int__(self):
         return self.__index__()
 
+    def __float__(self):
+        c = _concrete(self)
+        if c is not None:
+            return float(c)
+        raise Undecided("symbolic integer converted to float")
+
     def __hash__(self):
         c = _concrete(self)
         if c is not None:
